@@ -238,3 +238,82 @@ def msgstr_units(p, select=None):
         if select:
             u.select = select
         p.add(u)
+
+
+def text_codec_unit(ctx, res, col, reg):
+    """Text fields (type CH; str values given for C types) are encoded by val2bytes and decoded by bytes2val through
+    Python codecs, which the engine treats as opaque.  What the properties need from them is that the two directions
+    use the *same* codec and error handler (then decoding the encoded text returns the text, for every string the codec
+    can represent).  Both function bodies are executed symbolically for the text types and the (codec, error handler)
+    pairs of every encode / decode they perform are compared."""
+    from .difftest import summarise  # noqa (same exploration loop, but we need the ghost log)
+    from .contracts import Contract
+    from .exec import Executor, PyRaise
+    from .state import State, PathEnd
+    from .values import reset_names, SStr, Opaque, SBytes, Base, Unsupported, ContractOutOfDate
+    from .verify import build_args
+    H = "pyubx2.ubxhelpers."
+
+    def run(qn, params):
+        finfo = extract.get_function(qn)
+        c = Contract(qn, params=params, ensures=[], raises={}, modifies=[])
+        logs = []
+        work = [()]
+        n = 0
+        while work and n < 200:
+            script = work.pop()
+            n += 1
+            reset_names()
+            st = State(script, None)
+            ex = Executor(st, reg)
+            ex._defaults_module = finfo.module
+            try:
+                names, env, kw = build_args(ex, c, finfo)
+                try:
+                    ex.call_funcinfo(finfo, [env[x] for x in names], kw or {}, verifying=True, contract=c)
+                except PyRaise:
+                    pass
+                logs.append(tuple(st.ghost.get("codec_log", [])))
+            except PathEnd:
+                pass
+            work.extend(st.pending)
+        return logs
+
+    def text(ex, name):
+        return SStr((Opaque("any-text"),))
+
+    def anybytes(ex, name):
+        b, ln = Base(name), z3.Int(name + "_len")
+        from .values import mk_bool
+        ex.st.assume(mk_bool(ln >= 0))
+        return SBytes.view(b, 0, ln)
+
+    enc = run(H + "val2bytes", {"val": text, "att": ("const", "CH")})
+    dec = run(H + "bytes2val", {"valb": anybytes, "att": ("const", "CH")})
+    enc_pairs = sorted({(e, h) for log in enc for (d, e, h) in log if d == "encode"})
+    dec_pairs = sorted({(e, h) for log in dec for (d, e, h) in log if d == "decode"})
+
+    def norm(p):
+        return (str(p[0]).lower().replace("_", "-").replace("utf8", "utf-8"), p[1])
+
+    ok = len(enc_pairs) == 1 and len(dec_pairs) == 1 and norm(enc_pairs[0]) == norm(dec_pairs[0])
+    ob = Obligation("text-codec[CH]/same-codec-both-ways", "ensures")
+    ob.status = "unsat" if ok else "sat"
+    ob.backend = "eval"
+    ob.detail = f"val2bytes encodes CH text with {enc_pairs}, bytes2val decodes it with {dec_pairs}"
+    ob.inputs = {"encode": repr(enc_pairs), "decode": repr(dec_pairs)}
+    col.obligations.append(ob)
+    res.functions += [H + "val2bytes", H + "bytes2val"]
+
+
+def replay_text_codec(o):
+    """native witness: a string whose CH encoding does not decode back to it"""
+    import pyubx2.ubxhelpers as hlp
+    for s in ("caf\u00e9", "\u20ac", "\u00ff", "na\u00efve \u4e2d", "x"):
+        try:
+            back = hlp.bytes2val(hlp.val2bytes(s, "CH"), "CH")
+        except Exception as e:  # noqa
+            return {"reproduced": True, "observed": f"{type(e).__name__} for text {s!r}: {e}"}
+        if back != s:
+            return {"reproduced": True, "observed": f"val2bytes({s!r}, CH) = {hlp.val2bytes(s, 'CH')!r} decodes to {back!r}"}
+    return {"reproduced": False, "note": "sample strings round-trip"}
